@@ -508,8 +508,10 @@ func VerifHarness_C15_par1_names() {
 }
 
 func VerifHarness_C18_par1_faults() {
-	s, _ := p1Small()
+	s := p1Build([]string{"a", "b", "c"}, []int{3, 2, 1}, 2, false)
+	// two files to repair, so that a fault can hit after the first write completed
 	s.fs.remove(s.paths[0])
+	s.fs.remove(s.paths[1])
 	probe := newSymFS()
 	for _, p := range s.fs.order {
 		probe.put(p, s.fs.files[p])
@@ -518,14 +520,19 @@ func VerifHarness_C18_par1_faults() {
 	rt.Assert(perr == nil, "fault-free PAR1 Repair succeeds")
 	s.fs.nRead, s.fs.nWrite, s.fs.writes = 0, 0, nil
 	if rt.Bool("writeFault") {
-		s.fs.failWrite = 1
+		s.fs.failWrite = 1 + rt.Choice("write#", probe.nWrite)
 		s.fs.tornLen = []int{-1, 0, 1}[rt.Choice("torn", 3)]
 	} else {
 		s.fs.failRead = 1 + rt.Choice("read#", probe.nRead)
 	}
 	res, err := repair(s.fs, p1Index, RepairOptions{})
 	rt.Assert(err != nil, "a failed read or write makes PAR1 Repair return an error")
-	rt.Assert(len(res.RepairedPaths) == 0, "no path is reported repaired when its write did not complete")
+	rt.Assert(len(res.RepairedPaths) == len(s.fs.writes), "RepairedPaths lists exactly the files whose write completed, also when a later write fails")
+	for i, w := range s.fs.writes {
+		if i < len(res.RepairedPaths) {
+			rt.Assert(res.RepairedPaths[i] == w.path, "RepairedPaths lists exactly the files whose write completed, also when a later write fails")
+		}
+	}
 	s.fs.failRead, s.fs.failWrite, s.fs.nRead, s.fs.nWrite = 0, 0, 0, 0
 	_, err2 := repair(s.fs, p1Index, RepairOptions{})
 	rt.Assert(err2 == nil && s.intact(), "re-run after the fault restores the file")
